@@ -99,11 +99,15 @@ type Sim struct {
 	// Lock holds: the dual. At a per-run subset (1 in pHoldDen) of the statements that directly follow a Lock/RLock, a
 	// task is held back for holdFor while it HOLDS the lock: everybody else meets a busy lock for as long as they can
 	// run (code that treats "busy" as "somebody else is doing my work", TryLock shortcuts, needs exactly this).
-	pHoldDen      int
-	holdFor       time.Duration
-	stallSteps    int // > 0: half of the window delays are measured in scheduling steps of the other tasks (1..stallSteps)
-	pStallNum     int // probability (per 1000) that an enabled task is stalled for a quantum
-	writerPending bool
+	pHoldDen int
+	holdFor  time.Duration
+	// nodes whose tasks may wait at a lock for ever without that being called a deadlock: a scenario that makes a party
+	// of that node hang for good (an origin that never answers) names the node here
+	noDeadlockNode map[string]bool
+	statMu         sync.Mutex
+	stallSteps     int // > 0: half of the window delays are measured in scheduling steps of the other tasks (1..stallSteps)
+	pStallNum      int // probability (per 1000) that an enabled task is stalled for a quantum
+	writerPending  bool
 
 	spawnKeys []string
 	spawnCnt  []int
@@ -289,11 +293,11 @@ func (s *Sim) Hit(site int) {
 			// held back for a number of OTHER tasks' scheduling steps rather than for simulated time: the others are
 			// then caught in the middle of what they are doing (a store half switched, a map half copied)
 			t.stallStep = s.steps + 1 + int((h2>>8)%uint64(s.stallSteps))
-			s.stats["step-stall-after-unlock"]++
+			s.stat("step-stall-after-unlock")
 			s.tracef("stall %s for %d steps after unlock @%s", shortKey(t.Key), t.stallStep-s.steps, s.siteStr(site))
 		} else {
 			t.stallUntil = time.Now().Add(s.delayFor)
-			s.stats["delay-after-unlock"]++
+			s.stat("delay-after-unlock")
 			s.tracef("delay %s for %v after unlock @%s", shortKey(t.Key), s.delayFor, s.siteStr(site))
 		}
 		s.park(t, kHit, site)
@@ -303,7 +307,7 @@ func (s *Sim) Hit(site int) {
 		mix64(s.seed^0x401d, verifhook.Sites[site].File, uint64(verifhook.Sites[site].Line))%uint64(s.pHoldDen) == 0 {
 		t.holds++
 		t.stallUntil = time.Now().Add(s.holdFor)
-		s.stats["hold-after-lock"]++
+		s.stat("hold-after-lock")
 		s.tracef("hold %s for %v after lock @%s", shortKey(t.Key), s.holdFor, s.siteStr(site))
 		s.park(t, kHit, site)
 		return
@@ -643,7 +647,7 @@ func (s *Sim) Run(stop func(v schedView) bool, deadline time.Duration) error {
 		now := time.Now()
 		// starvation / deadlock check
 		for _, t := range v.parked {
-			if t.kind == kLock && t.disabled && !t.blockedSince.IsZero() && now.Sub(t.blockedSince) > s.deadlockB {
+			if t.kind == kLock && t.disabled && !t.blockedSince.IsZero() && now.Sub(t.blockedSince) > s.deadlockB && !s.noDeadlockNode[t.Node] {
 				return s.deadlock(v)
 			}
 		}
@@ -652,7 +656,7 @@ func (s *Sim) Run(stop func(v schedView) bool, deadline time.Duration) error {
 			if s.pStallNum > 0 && s.tape.Chance(s.pStallNum, 1000) {
 				t := v.enabled[s.tape.Int(len(v.enabled))]
 				t.stallUntil = now.Add(quanta[s.tape.Int(len(quanta))])
-				s.stats["stall"]++
+				s.stat("stall")
 				s.tracef("stall %s", t.Key)
 				continue
 			}
@@ -906,4 +910,16 @@ func (s *Sim) AliveTasks(node string) []string {
 	}
 	sort.Strings(out)
 	return out
+}
+
+// stat counts an event. Tasks that wake from a sleep run beside the current task until their next hook, so counters
+// are touched from several goroutines: one mutex, hidden from the race detector like the rest of the hand-off.
+//
+//go:norace
+func (s *Sim) stat(name string) {
+	raceDisable()
+	s.statMu.Lock()
+	s.stats[name]++
+	s.statMu.Unlock()
+	raceEnable()
 }
